@@ -105,6 +105,10 @@ def gen_history(rng, cfg, docgen, ntx=(1, 5), maxops=6, p_cancel=0.1,
     return ops
 
 
+class HistStop(Exception):
+    """The history ends here (a hook decided that the process stops)."""
+
+
 class HistActor(object):
     """Executes ops against the real index and the model. Hooks:
     after_commit(actor), after_abort(actor, how) are called at quiescent
@@ -122,6 +126,7 @@ class HistActor(object):
         self.on_op = on_op
         self.writer_factory = writer_factory
         self.before_commit = before_commit
+        self.on_commit_error = None
         self.before_abort = before_abort
         self.after_writer_open = after_writer_open
         self.failed_in_body = None
@@ -348,6 +353,8 @@ class HistActor(object):
             except (SimAbort, SimKilled, HarnessError, Violation):
                 raise
             except Exception as e:  # noqa
+                if self.on_commit_error is not None and self.on_commit_error(self, e):
+                    raise HistStop()
                 raise Violation("commit_raised", "commit(%s) raised %s: %s" % (m, type(e).__name__, e),
                                 sig="commit_raised:" + exc_sig(e))
             finally:
